@@ -27,6 +27,7 @@ RULE = ("random programs of 5-40 events over objects drawn from {Operator, SelfA
         "dipole operator) made inside a context on objects made outside vs the same made outside; protected context operators entered from other levels, incl. a directed class with the operator stored 0..k levels behind the current basis at depth 2-4 under real and complex outer operators. "
         "distinct = (event-kind sequence, nesting profile, exception class); non-trivial iff at least one object was actually transformed (read inside a "
         "context whose transformation is not the identity) before the final check.")
+RULE = RULE + " Round-6 workloads: evolutions are given new initial conditions inside and outside contexts (REINIT events)."
 ASSUMPTIONS = ["the transformation matrix the library puts on its stack is *validated* (orthogonal; diagonalises the context operator with ascending eigenvalues) "
                "and then used by the shadow stack: degenerate eigenvectors are not unique, so an independent eigh cannot predict the presented numbers",
                "failpoints are not placed inside the basis machinery itself (transform, transform_to_current_basis, __enter__/__exit__ of eigenbasis_of, the "
